@@ -1,9 +1,7 @@
-SPECIFICATION TraceSpec
+SPECIFICATION TreeSpec
 CONSTANTS
   Root = "koordinator-root-quota"
   Dims = {"cpu", "memory"}
-  CheckFigures = TRUE
-INVARIANT NonNegative
-INVARIANT UsedWithinRequest
+  CheckFigures = FALSE
 CONSTRAINT Report
 CHECK_DEADLOCK FALSE
